@@ -395,12 +395,13 @@ static void exc_execute(const Plan* p) {
   g_tree = new_raw(Tree, Int, Int);
   progress(0, "C07", "program");
   /* worker threads only run programs that handle everything they throw (an uncaught exception ends the process) */
+  int managed = (int)plan_env(p, "managed_threads", 0);    /* Thread objects made with new(), as the documentation does */
   var th_obj[MAXTH]; var th_arg[MAXTH]; int started[MAXTH] = { 0 };
   for (int th = 1; th <= nth; th++) {
     Trace* t = EXP[th];
     if (t->n && t->e[t->n - 1].what == EV_UNCAUGHT) { stat_add("exc.thread_program_skipped", 1); continue; }
-    th_obj[th] = new_raw(Thread, $(Function, thread_entry));
-    th_arg[th] = new_raw(Int, $I(th));      /* the argument tuple holds pointers: one object per thread */
+    th_obj[th] = managed ? new(Thread, $(Function, thread_entry)) : new_raw(Thread, $(Function, thread_entry));
+    th_arg[th] = managed ? new(Int, $I(th)) : new_raw(Int, $I(th));      /* the argument tuple holds pointers: one object per thread */
     call(th_obj[th], th_arg[th]);
     started[th] = 1;
     stat_add("exc.thread_programs", 1);
@@ -414,7 +415,7 @@ static void exc_execute(const Plan* p) {
     run_program(0);
   }
   for (int th = 1; th <= nth; th++) if (started[th] == 1) join(th_obj[th]);
-  for (int th = 1; th <= nth; th++) if (started[th]) { del_raw(th_obj[th]); del_raw(th_arg[th]); }
+  for (int th = 1; th <= nth; th++) if (started[th]) { if (managed) { del(th_obj[th]); del(th_arg[th]); } else { del_raw(th_obj[th]); del_raw(th_arg[th]); } }
   for (int th = 0; th <= nth; th++) {
     if (th > 0 && !started[th]) continue;
     if (g_pos[th] != EXP[th]->n) viol("C07", "C07:trace-too-short", "thread %d: real run produced %d of %d expected events", th, g_pos[th], EXP[th]->n);
@@ -453,6 +454,7 @@ static void exc_generate(Plan* p, Rng* r) {
   if (plan_env(p, "threads", -1) < 0) { nth = rng_chance(r, 1, 4) ? 1 + (int)rng_below(r, 3) : 0; plan_env_set(p, "threads", nth); }
   else nth = (int)plan_env(p, "threads", 0);
   if (nth > 0) { plan_env_set(p, "sched.mode", 2); plan_env_set(p, "sched.chaos_den", 2 + (int)rng_below(r, 6)); }
+  if (nth > 0 && plan_env(p, "managed_threads", -1) < 0) plan_env_set(p, "managed_threads", (int)rng_below(r, 2));
   plan_env_set(p, "alloc.place", (int)rng_below(r, 3));
   for (int th = 0; th <= nth; th++) {
     int budget = 6 + (int)rng_below(r, 34);
